@@ -169,7 +169,7 @@ func (s *rawSink) waitLen(n int, d time.Duration) []byte {
 
 // ---------- abstract case ----------
 type wWriter struct {
-	kind string // server side: R response, H heartbeat echo, P push; client side: G Go, O one-way Go, S SendRaw
+	kind string // server side: R response, C router-handler response (Context.Write), H heartbeat echo, P push; client side: G Go, O one-way Go, S SendRaw
 	pad  int
 	meta bool
 }
@@ -309,6 +309,14 @@ func wRunCase(o *common.Out, id string, c wCase, r *common.Rand) {
 			return w
 		}})
 		srv.RegisterName("Sd08", &Sd08{}, "")
+		// a router handler: its response goes through Context.Write
+		srv.AddHandler("Rt08", "Echo", func(ctx *server.Context) error {
+			var a BArgs
+			if err := ctx.Bind(&a); err != nil {
+				return err
+			}
+			return ctx.Write(&BReply{Id: a.Id, Pad: a.Pad + a.Pad})
+		})
 		go srv.ServeListener("vpipe", ln)
 		<-srv.Started
 		pc, err := ln.dial()
@@ -338,6 +346,17 @@ func wRunCase(o *common.Out, id string, c wCase, r *common.Rand) {
 				rh[2] |= 0x80
 				// the response carries the reply and the handler's response metadata (none), not the request's
 				pred[i] = wFrame{hdr: rh, path: "Sd08", method: "Echo",
+					pre: fmt.Sprintf(`{"Id":%d,"Pad":"`, i), n: 2 * w.pad, suf: `"}`}
+			case "C":
+				var h [12]byte
+				h[0], h[3] = 8, 1<<4
+				binary.BigEndian.PutUint64(h[4:], uint64(100+i))
+				args, _ := json.Marshal(&BArgs{Id: i, Pad: strings.Repeat("x", w.pad)})
+				req := refcodec.Build(h, []byte("Rt08"), []byte("Echo"), nil, args)
+				starters = append(starters, func() { pc.Write(req) })
+				rh := h
+				rh[2] |= 0x80
+				pred[i] = wFrame{hdr: rh, path: "Rt08", method: "Echo",
 					pre: fmt.Sprintf(`{"Id":%d,"Pad":"`, i), n: 2 * w.pad, suf: `"}`}
 			case "H":
 				var h [12]byte
@@ -571,7 +590,7 @@ func genWCase(r *common.Rand, tier string) wCase {
 	for i := 0; i < n; i++ {
 		var k string
 		if c.side == "srv" {
-			k = []string{"R", "R", "R", "H", "H", "P"}[r.Intn(6)]
+			k = []string{"R", "R", "C", "C", "H", "H", "P"}[r.Intn(7)]
 		} else {
 			k = []string{"G", "G", "G", "O", "S"}[r.Intn(5)]
 		}
@@ -615,7 +634,7 @@ func runShared(r *common.Rand, tier string, o *common.Out, replay string) {
 	// are released in reverse order - for every pair of writer kinds and both sides, on one P (the pool
 	// then hands the same buffer out again at once)
 	for _, side := range []string{"srv", "cli"} {
-		kinds := []string{"R", "H", "P"}
+		kinds := []string{"R", "C", "H", "P"}
 		if side == "cli" {
 			kinds = []string{"G", "O", "S"}
 		}
